@@ -84,7 +84,10 @@ RULE = (
     "begin_transaction() (get_current_heads / connection SELECT / context.execute) and run_migrations() without the outer "
     "begin_transaction() (only where that level is a nullcontext): round robin over the configs of every random in-process script, and "
     "on the command path (patched generic env.py) every variant x 4 settings (all 8 in thorough) x every failure position for a script "
-    "with and one without autocommit blocks; (9) env.py calling run_migrations() twice inside ONE begin_transaction() block, through the real EnvironmentContext "
+    "with and one without autocommit blocks; (10) several configure()/begin_transaction()/run_migrations() rounds on ONE connection "
+    "without a caller-owned transaction (hand-written multi-tenant env.py: one version table and disjoint objects per round, different "
+    "settings per round), failing migration in the first or the second round, every round judged on its slice of the observation; "
+    "(9) env.py calling run_migrations() twice inside ONE begin_transaction() block, through the real EnvironmentContext "
     "and ScriptDirectory.run_env() with a per-call target (phases), failing migration in the first or the second call, judged as the "
     "stock shape over the concatenated plan; (8) an offline (--sql) stream: the same bodies run in as_sql mode (sqlite dialect, transactional_ddl {default,True} x "
     "transaction_per_migration; MigrationContext in-process and command.upgrade(sql=True) with the shipped env.py), failing at every "
@@ -647,7 +650,27 @@ def settings_kw(st, pm_int=False):
     return kw
 
 
-def twodb_execute(scratch, cfg, script, rev_index, bases, engine_mode, calls, fail, pm_int=False):
+ROUND_SHIFT = 50  # objects of round r are the script's objects + 2 * 50 * r
+ROUND_NAMES = ["r1", "r2"]
+
+
+def round_obs(path, rev_index, r):
+    """the slice of a one-database observation that belongs to round r (its objects, its version table)"""
+    o = oi.observe(path, rev_index, vt_name="alembic_version_" + ROUND_NAMES[r])
+    lo, hi = 2 * ROUND_SHIFT * r, 2 * ROUND_SHIFT * (r + 1)
+    return dict(o, objs=[e - lo for e in o["objs"] if lo <= e < hi])
+
+
+def twodb_execute(scratch, cfg, script, rev_index, bases, engine_mode, calls, fail, pm_int=False, layout="twodb"):
+    if layout == "rounds":
+        # several configure()/begin_transaction()/run_migrations() rounds on ONE connection, one version table per round
+        work = os.path.join(scratch, "work_rounds.sqlite")
+        shutil.copyfile(bases[0], work)
+        cfg.set_main_option("db.url", "sqlite:///" + work)
+        cfg.attributes["verif_databases"] = [(ROUND_NAMES[i], settings_kw(st, pm_int)) for i, st in enumerate(calls)]
+        res, orc = oi.run_command(cfg, script["bodies"], rev_index, script["cmd"], script["target"], engine_mode, fail,
+                                  shifts={nm: ROUND_SHIFT * i for i, nm in enumerate(ROUND_NAMES)})
+        return res, orc, [round_obs(work, rev_index, i) for i in range(2)]
     works = [os.path.join(scratch, "work_db%d.sqlite" % (i + 1)) for i in range(2)]
     for i, (b, w) in enumerate(zip(bases, works)):
         shutil.copyfile(b, w)
@@ -657,17 +680,21 @@ def twodb_execute(scratch, cfg, script, rev_index, bases, engine_mode, calls, fa
     return res, orc, [oi.observe(w, rev_index) for w in works]
 
 
-def twodb_cases(ctx, script, engine_mode, calls, scratch, cfg, bases, all_positions, kinds_for, pm_int=False):
+def twodb_cases(ctx, script, engine_mode, calls, scratch, cfg, bases, all_positions, kinds_for, pm_int=False, layout="twodb"):
     hist = script["hist"]
     rev_index = {r["id"]: i for i, r in enumerate(hist)}
     parents = parents_of(hist, rev_index)
-    db0 = [oi.observe(b, rev_index) for b in bases]
-    names = ["db1", "db2"]
-    res, ref, fins = twodb_execute(scratch, cfg, script, rev_index, bases, engine_mode, calls, None, pm_int)
+    if layout == "rounds":
+        db0 = [round_obs(bases[0], rev_index, i) for i in range(2)]
+        names = ROUND_NAMES
+    else:
+        db0 = [oi.observe(b, rev_index) for b in bases]
+        names = ["db1", "db2"]
+    res, ref, fins = twodb_execute(scratch, cfg, script, rev_index, bases, engine_mode, calls, None, pm_int, layout)
     ctx.evaluation()
-    config = {"engine": engine_mode, "calls": [list(c) for c in calls], "template": "twodb", "pm_int": pm_int}
+    config = {"engine": engine_mode, "calls": [list(c) for c in calls], "template": layout, "pm_int": pm_int}
     if res != "ok" or ref.unparsed:
-        ctx.disagree("online.reference", {"script": script, "runner": "twodb", "config": config}, {"res": res, "unparsed": ref.unparsed},
+        ctx.disagree("online.reference", {"script": script, "runner": layout, "config": config}, {"res": res, "unparsed": ref.unparsed},
                      {"raised": False}, note="two-database run without injected failure raised")
         return
     gsteps = [[g for g, st in enumerate(ref.steps) if st["engine"] == nm] for nm in names]
@@ -677,7 +704,7 @@ def twodb_cases(ctx, script, engine_mode, calls, scratch, cfg, bases, all_positi
     eff = ctx.drv.ask1({"op": "online.configure", "dialectDefault": False, "calls": [list(c) for c in calls]}).get("effective")
     for i in range(2):
         if seen[i] is not None and seen[i] != eff[i]:
-            ctx.disagree("online.configure", {"runner": "twodb", "config": config, "db": i}, {"flags_of_real_context": seen[i]},
+            ctx.disagree("online.configure", {"runner": layout, "config": config, "db": i}, {"flags_of_real_context": seen[i]},
                          {"flags": eff[i]}, note="settings reaching the MigrationContext of a later configure() call")
     own = [[bool(c[0]) if c[0] is not None else False, bool(c[1])] for c in calls]
 
@@ -687,7 +714,7 @@ def twodb_cases(ctx, script, engine_mode, calls, scratch, cfg, bases, all_positi
                 "db": {k: db0[i][k] for k in ("objs", "rows", "vt")}, "upgrade": script["cmd"] == "upgrade", "parents": parents}
 
     def meta(i, gfail, flags):
-        return {"runner": "twodb", "config": config, "script": script,
+        return {"runner": layout, "config": config, "script": script,
                 "multi": {"db": i, "fail": gfail, "own": own[i], "seen": flags},
                 "spec_cfg": {"tddl": own[i][0], "perMig": own[i][1]}}
 
@@ -701,10 +728,10 @@ def twodb_cases(ctx, script, engine_mode, calls, scratch, cfg, bases, all_positi
                 if not all_positions and not (e == 1 and k >= 1) and pos != 1:
                     continue  # quick: every position of the later migrations on the later database, a sample elsewhere
                 for kind in kinds_for(g, pos):
-                    res, orc, fins = twodb_execute(scratch, cfg, script, rev_index, bases, engine_mode, calls, (g, pos, kind), pm_int)
+                    res, orc, fins = twodb_execute(scratch, cfg, script, rev_index, bases, engine_mode, calls, (g, pos, kind), pm_int, layout)
                     ctx.evaluation()
                     if res == "ok":
-                        ctx.disagree("online.run", {"script": script, "runner": "twodb", "config": config, "fail": [g, pos, kind]}, {"res": res}, {"raised": True})
+                        ctx.disagree("online.run", {"script": script, "runner": layout, "config": config, "fail": [g, pos, kind]}, {"res": res}, {"raised": True})
                         continue
                     flags_e = orc.steps[gsteps[e][0]]["seen"] if len(orc.steps) > gsteps[e][0] else seen[e]
                     for i in range(2):
@@ -718,7 +745,7 @@ def twodb_cases(ctx, script, engine_mode, calls, scratch, cfg, bases, all_positi
                             same = {x: fins[i][x] for x in ("objs", "rows", "vt")} == {x: db0[i][x] for x in ("objs", "rows", "vt")}
                             ctx.hist("twodb_untouched_database", "unchanged" if same else "CHANGED")
                             if not same:
-                                ctx.fail({"script": script, "runner": "twodb", "config": config, "multi": {"db": i, "fail": [g, pos, kind]}},
+                                ctx.fail({"script": script, "runner": layout, "config": config, "multi": {"db": i, "fail": [g, pos, kind]}},
                                          "out-of-step: two databases: a database on which no migration ran was changed by the failed run",
                                          impl={"final": fins[i], "before": db0[i]}, tags=["untouched"])
 
@@ -741,6 +768,8 @@ def twodb_battery(ctx, pending, thorough):
                         n += 1
                         if not thorough and engine_mode == "pysqlite" and c1[0] == c2[0]:
                             continue  # quick: on pysqlite only the pairs whose transactional_ddl arguments differ
+                        if not thorough and engine_mode == "recipe" and c1 == c2:
+                            continue  # quick: identical settings in both calls are left to the one-connection rounds below
                         if thorough:
                             kinds_for = lambda g, pos: ["exception"] + nonexc
                         else:
@@ -749,6 +778,37 @@ def twodb_battery(ctx, pending, thorough):
                             pending.append(case)
                             ctx.hist("steps", len(case[0]["plan"]))
                             ctx.hist("configure() pairs (own settings db1 -> db2)", "%s -> %s" % (c1, c2))
+
+
+def rounds_battery(ctx, pending, thorough):
+    """several configure()/begin_transaction()/run_migrations() rounds on ONE connection (one version table and disjoint
+    objects per round), no caller-owned transaction; every round is judged on its own slice of the fresh-connection
+    observation against its own settings.  Pairs (transactional_ddl=True -> not given) are left to the two-database
+    battery (known finding C04-F1 lives there)."""
+    nonexc = ["keyboardInterrupt", "systemExit", "baseException"]
+    script = TWODB_SCRIPT
+    rev_index = {r["id"]: i for i, r in enumerate(script["hist"])}
+    with oi.Scratch() as scratch:
+        base = oi.new_db(scratch, "base_rounds.sqlite")
+        cfg = oi.make_twodb_dir(scratch, script["hist"], layout="rounds")
+        n = 0
+        for engine_mode in ("recipe", "pysqlite"):
+            for c1 in SETTINGS:
+                for c2 in SETTINGS:
+                    n += 1
+                    if c1[0] is True and c2[0] is None:
+                        continue
+                    if not thorough and not (c1 == c2 or (engine_mode == "recipe" and n % 3 == 0)):
+                        continue
+                    if thorough:
+                        kinds_for = lambda g, pos: ["exception"] + nonexc
+                    else:
+                        kinds_for = lambda g, pos, n=n: ["exception"] if (g + pos + n) % 3 else ["exception", nonexc[(g + pos + n) % 9 // 3]]
+                    for case in twodb_cases(ctx, script, engine_mode, (c1, c2), scratch, cfg, [base, base], thorough, kinds_for,
+                                            pm_int=n % 2 == 0, layout="rounds"):
+                        pending.append(case)
+                        ctx.hist("steps", len(case[0]["plan"]))
+                        ctx.hist("configure() rounds on one connection (own settings r1 -> r2)", "%s -> %s" % (c1, c2))
 
 
 # ------------------------------------------------------------------------------------------ offline (--sql) stream
@@ -911,6 +971,8 @@ def _work(job):
         multidb_battery(stub, pending)
     elif runner == "twodb":
         twodb_battery(stub, pending, thorough)
+    elif runner == "rounds":
+        rounds_battery(stub, pending, thorough)
     else:
         run_script(stub, script, configs, pending, runner, flush=False)
     return pending, stub.evaluations, stub.hists, stub.disagreements, stub.failures
@@ -1050,6 +1112,7 @@ def run(ctx, n_scripts=None, rng_name="main"):
     jobs.append((fixed[0], OFFLINE_CFGS[:1], "command-sql"))
     jobs.append(("multidb", None, "multidb"))
     jobs.append(("twodb", None, "twodb"))
+    jobs.append(("rounds", None, "rounds"))
     if ctx.thorough and rng_name == "main":
         n_ex = 0
         for script in exhaustive_scripts(2):
@@ -1133,14 +1196,18 @@ def replay(ctx, case):
     script, config = rec["script"], rec["config"]
     rev_index = {r["id"]: i for i, r in enumerate(script["hist"])}
     out = {}
-    if rec.get("runner") == "twodb":
+    if rec.get("runner") in ("twodb", "rounds"):
         multi = rec["multi"]
+        layout = rec["runner"]
         with oi.Scratch() as scratch:
-            bases = [prepare_base(scratch, script, rev_index, "base_db%d.sqlite" % (i + 1)) for i in range(2)]
-            cfg = oi.make_twodb_dir(scratch, script["hist"])
+            if layout == "rounds":
+                bases = [oi.new_db(scratch, "base_rounds.sqlite")] * 2
+            else:
+                bases = [prepare_base(scratch, script, rev_index, "base_db%d.sqlite" % (i + 1)) for i in range(2)]
+            cfg = oi.make_twodb_dir(scratch, script["hist"], layout=layout)
             f = tuple(multi["fail"]) if multi.get("fail") else None
             res, orc, fins = twodb_execute(scratch, cfg, script, rev_index, bases, config["engine"], [tuple(c) for c in config["calls"]], f,
-                                           bool(config.get("pm_int")))
+                                           bool(config.get("pm_int")), layout)
         fin = fins[multi["db"]]
         out["impl"] = {"res": res, "final_db1": fins[0], "final_db2": fins[1], "failed_at_global_step": [orc.step, orc.pos],
                        "flags_of_real_contexts_per_step": [st.get("seen") for st in orc.steps], "database_judged": multi["db"],
